@@ -221,6 +221,7 @@ pub fn run_history(o: &Opts, _cfg: &GenCfg, prog: &Prog, hist: &[Step], case_see
     let stats = mon::basic_stats(&log);
     rep.counts.merge(&stats);
     rep.counts.add("history_steps", hist.len() as u64);
+    rep.counts.add("never_change_rejections", runner.rejections);
 
     // property-specific monitors over the log
     match o.prop.as_str() {
@@ -792,14 +793,17 @@ pub fn classify_cyc_mismatch(
     None
 }
 
-/// For every reconstructed execution: could salsa observe, during it, that it is part of a cycle?
-/// True if (transitively through nested executions) a cycle_result/cycle_initial call happened
-/// within its span, it read a function that was executing at that moment, or it read the result of
-/// an execution of the same top-level request that itself touched a cycle (a provisional memo).
-/// Reads served from memos of earlier requests / revisions do not count. Only members of the
-/// strongly connected component `scc` are considered.
+/// For every reconstructed execution: could salsa observe, during it, that it is part of a cycle,
+/// i.e. did it (transitively) re-enter itself or a function that was executing around it?
+/// Evidence: a cycle_result/cycle_initial call for, or a read of, a function that was executing
+/// at that moment -- counted only when that function is the execution itself or encloses it --
+/// directly, through nested executions, or through the result of an execution of the same
+/// top-level request that touched such a frame which is still active (a provisional memo).
+/// Inner cycles that start and finish inside the execution, and reads served from memos of
+/// earlier requests / revisions, are no evidence. Only members of the strongly connected
+/// component `scc` are considered.
 pub fn cycle_touches(log: &[Stamped], execs: &[mon::Exec], comp: &[usize], scc: usize) -> Vec<bool> {
-    // top-level request number per clock
+    use std::collections::BTreeSet;
     let mut req_starts: Vec<u64> = Vec::new();
     for (clk, _, r) in log {
         if matches!(r, Rec::Call(..)) {
@@ -807,55 +811,76 @@ pub fn cycle_touches(log: &[Stamped], execs: &[mon::Exec], comp: &[usize], scc: 
         }
     }
     let req_of = |t: u64| req_starts.partition_point(|s| *s <= t);
-    let cyc_clocks: Vec<u64> = log
+    let endof = |o: &mon::Exec| if o.end == 0 { u64::MAX } else { o.end };
+    // innermost execution of `node` active at clock t
+    let active_exec = |node: usize, t: u64| -> Option<usize> {
+        execs
+            .iter()
+            .enumerate()
+            .filter(|(_, o)| o.act.node as usize == node && o.start < t && endof(o) > t)
+            .max_by_key(|(_, o)| o.start)
+            .map(|(i, _)| i)
+    };
+    let cyc_recs: Vec<(u64, usize)> = log
         .iter()
-        .filter(|(_, _, r)| matches!(r, Rec::CycleInitial(x) if comp[*x] == scc))
-        .map(|(c, _, _)| *c)
+        .filter_map(|(c, _, r)| match r {
+            Rec::CycleInitial(x) if comp[*x] == scc => Some((*c, *x)),
+            _ => None,
+        })
         .collect();
     let mut order: Vec<usize> = (0..execs.len()).collect();
-    order.sort_by_key(|&i| if execs[i].end == 0 { u64::MAX } else { execs[i].end });
-    let mut touches = vec![false; execs.len()];
+    order.sort_by_key(|&i| endof(&execs[i]));
+    let mut heads: Vec<BTreeSet<usize>> = vec![BTreeSet::new(); execs.len()];
     for &i in &order {
         let x = &execs[i];
-        let end = if x.end == 0 { u64::MAX } else { x.end };
-        let mut t = cyc_clocks.iter().any(|c| *c > x.start && *c < end);
-        if !t {
-            // nested executions
-            t = execs
-                .iter()
-                .enumerate()
-                .any(|(j, y)| j != i && y.start > x.start && y.end != 0 && y.end < end && touches[j]);
+        let end = endof(x);
+        let mut h: BTreeSet<usize> = BTreeSet::new();
+        for (c, node) in &cyc_recs {
+            if *c > x.start && *c < end {
+                if let Some(a) = active_exec(*node, *c) {
+                    h.insert(a);
+                }
+            }
         }
-        if !t {
-            for (clk, it) in &x.items {
-                if let mon::Item::Read(ReadK::Call(_, c, _), _) = it {
-                    let c = *c as usize;
-                    if comp[c] != scc {
-                        continue;
-                    }
-                    let active = execs.iter().any(|o| {
-                        o.act.node as usize == c && o.start < *clk && (o.end == 0 || o.end > *clk)
-                    });
-                    if active {
-                        t = true;
-                        break;
-                    }
-                    // latest completed execution of c before the read
-                    if let Some((j, y)) = execs
-                        .iter()
-                        .enumerate()
-                        .filter(|(_, y)| y.act.node as usize == c && y.end != 0 && y.end < *clk)
-                        .max_by_key(|(_, y)| y.end)
-                    {
-                        if touches[j] && req_of(y.start) == req_of(*clk) {
-                            t = true;
-                            break;
+        for (j, y) in execs.iter().enumerate() {
+            if j != i && y.start > x.start && endof(y) < end {
+                h.extend(heads[j].iter().copied());
+            }
+        }
+        for (clk, it) in &x.items {
+            if let mon::Item::Read(ReadK::Call(_, c, _), _) = it {
+                let c = *c as usize;
+                if comp[c] != scc {
+                    continue;
+                }
+                if let Some(a) = active_exec(c, *clk) {
+                    h.insert(a);
+                    continue;
+                }
+                if let Some((j, y)) = execs
+                    .iter()
+                    .enumerate()
+                    .filter(|(_, y)| y.act.node as usize == c && y.end != 0 && y.end < *clk)
+                    .max_by_key(|(_, y)| y.end)
+                {
+                    if req_of(y.start) == req_of(*clk) {
+                        for &a in &heads[j] {
+                            if endof(&execs[a]) > *clk {
+                                h.insert(a);
+                            }
                         }
                     }
                 }
             }
         }
-        touches[i] = t;
+        heads[i] = h;
     }
-    touches
+    (0..execs.len())
+        .map(|i| {
+            let e = &execs[i];
+            heads[i].iter().any(|&a| {
+                a == i || (execs[a].start < e.start && endof(&execs[a]) > endof(e).min(u64::MAX - 1))
+            })
+        })
+        .collect()
 }
